@@ -1,3 +1,183 @@
+import Invoke.Model.Collection
 import Driver.Util
-/-! stub: replaced by the owner of this driver -/
-def main : IO Unit := Drv.mainLoop (fun _ => "bad-op")
+/-! Line protocol for the `Collection` model (C10, C17).
+
+    One line = one tree plus its queries, TAB-separated:  `<tree>\t<q1>\t<q2>…` ↦ `<r1>\t<r2>…`.
+    tree  := '(' name ';' ad ';' default ';' cfg ';' tasks ';' aliases ';' '[' (key '=' tree)* ']' ')'
+             name/default: `~` = None;  tasks `key:id&…`;  aliases `alias>key&…`
+    cfg   := '{' (key ':' val (',' key ':' val)*)? '}' ;  val := cfg | i<int> | b0 | b1 | n | s<codes>
+    query := N | P | F | T | J | W | U | D | L<name> | C<name> | X<0|1><name> | M<ad>;<name|~>;<mod>;<cfg> -/
+open Inv Inv.Coll Drv
+
+def S (t : List Char) : String := String.ofList t
+
+def sortStr (l : List String) : List String := (l.toArray.qsort (· < ·)).toList
+
+def tw (p : Char → Bool) (cs : List Char) : List Char × List Char := (cs.takeWhile p, cs.dropWhile p)
+
+partial def parseVal (cs : List Char) : Option (Val × List Char) :=
+  match cs with
+  | 'i' :: r =>
+    let (tok, rest) := tw (fun c => c.isDigit || c == '-') r
+    some (.leaf (.i (S tok).toInt!), rest)
+  | 'b' :: '0' :: r => some (.leaf (.b false), r)
+  | 'b' :: '1' :: r => some (.leaf (.b true), r)
+  | 'n' :: r => some (.leaf .none, r)
+  | 's' :: r =>
+    let (tok, rest) := tw (fun c => c.isDigit || c == '.') r
+    some (.leaf (.s (decChars (S tok))), rest)
+  | '{' :: '}' :: r => some (.dict [], r)
+  | '{' :: r => go r []
+  | _ => none
+where go (cs : List Char) (acc : KVs) : Option (Val × List Char) :=
+  let (k, r) := tw (· != ':') cs
+  match parseVal (r.drop 1) with
+  | none => none
+  | some (v, rest) =>
+    match rest with
+    | ',' :: r => go r (acc ++ [(k, v)])
+    | '}' :: r => some (.dict (acc ++ [(k, v)]), r)
+    | _ => none
+
+def parseCfg (cs : List Char) : Option (KVs × List Char) :=
+  match parseVal cs with
+  | some (.dict d, r) => some (d, r)
+  | _ => none
+
+def field (cs : List Char) : List Char × List Char :=
+  let (f, r) := tw (· != ';') cs
+  (f, r.drop 1)
+
+def splitC (c : Char) (t : List Char) : List (List Char) :=
+  if t.isEmpty then [] else (S t |>.splitOn (String.singleton c)).map String.toList
+
+def optName (t : List Char) : Option CName := if t = ['~'] then none else some t
+
+partial def parseColl (cs : List Char) : Option (Coll × List Char) :=
+  match cs with
+  | '(' :: r =>
+    let (nm, r) := field r
+    let (ad, r) := field r
+    let (df, r) := field r
+    match parseCfg r with
+    | none => none
+    | some (cfg, r) =>
+      let r := r.drop 1
+      let (ts, r) := field r
+      let (als, r) := field r
+      let tasks := (splitC '&' ts).filterMap fun t =>
+        match splitC ':' t with
+        | [k, id] => some (k, (S id).toNat!)
+        | [id] => some ([], (S id).toNat!)
+        | _ => none
+      let aliases := (splitC '&' als).filterMap fun a =>
+        match S a |>.splitOn ">" with
+        | [x, y] => some (x.toList, y.toList)
+        | _ => none
+      match r with
+      | '[' :: r =>
+        let rec kids (r : List Char) (acc : List (CName × Coll)) : Option (List (CName × Coll) × List Char) :=
+          match r with
+          | ']' :: ')' :: rest => some (acc, rest)
+          | _ =>
+            let (k, r2) := tw (· != '=') r
+            match parseColl (r2.drop 1) with
+            | some (c, rest) => kids rest (acc ++ [(k, c)])
+            | none => none
+        match kids r [] with
+        | some (cl, rest) => some (.mk (optName nm) (ad == ['1']) tasks aliases cl (optName df) cfg, rest)
+        | none => none
+      | _ => none
+  | _ => none
+
+def showLeaf : Leaf → String
+  | .none => "n"
+  | .b v => if v then "b1" else "b0"
+  | .i v => s!"i{v}"
+  | .s v => "s" ++ encChars v
+  | .l _ => "l"
+  | .obj t => s!"o{t}"
+
+partial def showVal : Val → String
+  | .leaf l => showLeaf l
+  | .dict kvs =>
+    "{" ++ ",".intercalate (sortStr (kvs.map fun (k, v) => S k ++ ":" ++ showVal v)) ++ "}"
+
+def showCfg (d : KVs) : String := showVal (.dict d)
+
+def dotted (p : List CName) : String := S (joinDot p)
+
+def showEntry (e : Entry) : String := dotted e.1 ++ "=" ++ ",".intercalate (sortStr (e.2.map dotted))
+
+def showEntries (es : List Entry) : String := ";".intercalate (sortStr (es.map showEntry))
+
+def showErr : LErr → String
+  | .key => "ERR key"
+  | .value => "ERR value"
+  | .ambiguous => "ERR ambiguous"
+
+def showLookup : Except LErr (Nat × KVs) → String
+  | .ok (t, cfg) => s!"OK {t} {showCfg cfg}"
+  | .error e => showErr e
+
+def showNLine : NLine → String
+  | .task anc nm star als =>
+    "t:" ++ "/".intercalate (anc.map S) ++ ":" ++ S nm ++ ":" ++ (if star then "*" else "-") ++ ":" ++
+      ",".intercalate (sortStr (als.map S))
+  | .coll anc nm => "c:" ++ "/".intercalate (anc.map S) ++ ":" ++ S nm
+
+def showOpt : Option CName → String
+  | none => "~"
+  | some n => S n
+
+partial def showJ : JNode → String
+  | .mk nm d ts cs =>
+    "{" ++ showOpt nm ++ "|" ++ showOpt d ++ "|" ++
+      ";".intercalate (sortStr (ts.map fun (n, als) => S n ++ "=" ++ ",".intercalate (sortStr (als.map S)))) ++ "|[" ++
+      ",".intercalate (sortStr (cs.map showJ)) ++ "]}"
+
+partial def showColl : Coll → String
+  | .mk nm ad ts als cs d cfg =>
+    "(" ++ showOpt nm ++ ";" ++ (if ad then "1" else "0") ++ ";" ++ showOpt d ++ ";" ++ showCfg cfg ++ ";" ++
+      "&".intercalate (sortStr (ts.map fun (k, id) => S k ++ ":" ++ toString id)) ++ ";" ++
+      "&".intercalate (sortStr (als.map fun (a, k) => S a ++ ">" ++ S k)) ++ ";[" ++
+      "".intercalate (sortStr (cs.map fun (k, c) => S k ++ "=" ++ showColl c)) ++ "])"
+
+def query (c : Coll) (q : String) : String :=
+  match q.toList with
+  | ['N'] => showEntries (taskNames c)
+  | ['P'] => if parserOk c then "ok" else "dup"
+  | ['F'] => showEntries (flatPairs c [])
+  | ['T'] => ";".intercalate (sortStr ((nestedPairs c []).map showNLine))
+  | ['J'] => showJ (serialized c)
+  | ['W'] => if wf c then "1" else "0"
+  | ['U'] => if uniformDash c.autoDash c then "1" else "0"
+  | ['D'] => match defaultTaskName c with | some p => dotted p | none => "~"
+  | 'L' :: nm => showLookup (getitem c nm)
+  | 'C' :: nm =>
+    match cliTask c (splitOnDot nm) with
+    | none => "REJ"
+    | some (.ok (t, _)) => s!"RUN {t}"
+    | some (.error e) => showErr e
+  | 'X' :: ad :: nm => S (transform (ad == '1') nm)
+  | 'M' :: r =>
+    let (ad, r) := field r
+    let (gv, r) := field r
+    let (md, r) := field r
+    match parseCfg r with
+    | none => "bad-cfg"
+    | some (cfg, _) =>
+      match fromModule c (optName gv) md (ad == ['1']) cfg with
+      | .ok c' => showColl c'
+      | .error e => showErr e
+  | _ => "bad-query"
+
+def step (line : String) : String :=
+  match line.splitOn "\t" with
+  | [] => "bad-op"
+  | tree :: qs =>
+    match parseColl tree.toList with
+    | some (c, _) => "\t".intercalate (qs.map (query c))
+    | none => "bad-tree"
+
+def main : IO Unit := mainLoop step
